@@ -50,13 +50,15 @@ def variants_of(marked, r, n, separators=True):
     return out
 
 
-def emit_marked(prog):
-    old = (progen.LSEP, progen.SSEP, progen.NSEP)
-    progen.LSEP, progen.SSEP, progen.NSEP = reprint.M_L, reprint.M_S, reprint.M_N
+def emit_marked(prog, bare_items=True):
+    """bare_items: a list item that is a negative literal or a unary minus is printed without
+    parentheses, so that a newline used as the separator is followed by `-`"""
+    old = (progen.LSEP, progen.SSEP, progen.NSEP, progen.BARE_ITEMS)
+    progen.LSEP, progen.SSEP, progen.NSEP, progen.BARE_ITEMS = reprint.M_L, reprint.M_S, reprint.M_N, bare_items
     try:
         src, _ = progen.emit(prog)
     finally:
-        progen.LSEP, progen.SSEP, progen.NSEP = old
+        progen.LSEP, progen.SSEP, progen.NSEP, progen.BARE_ITEMS = old
     return src
 
 
@@ -73,8 +75,10 @@ def run(ctx):
     r0 = vlib.Rng(ctx.seed * 97 + 29)
     jobs, groups = [], []
     for (idx, prog, src, ref) in items:
-        marked = emit_marked(prog)
-        assert reprint.plain(marked) == src
+        marked = emit_marked(prog, bare_items=idx % 2 == 0)
+        if idx % 2:
+            assert reprint.plain(marked) == src
+        src = reprint.plain(marked)   # the base: `,` and `;` everywhere, no comments
         vs = variants_of(marked, r0.fork(idx), NVAR)
         base = job_of("g%06d-o" % idx, src)
         jobs.append(base)
